@@ -154,7 +154,9 @@ def stepOp (b : Bag) : Op → Bag × String
   | .setChar i j c => let r := setSequenceChar i j c b; (r.1, if r.2 then "err" else "ok")
   | .trimSeqs n fs =>
     if !b.isAlign then (b, "na") else
-    let r := trimSequences n fs b; (r.1, if r.2 then "err" else "ok")
+    match trimSequences n fs b with
+    | none => (b, "PANIC")
+    | some r => (r.1, if r.2 then "err" else "ok")
   | .autoAlpha => ({ b with alphabet := autoAlphabet (b.rows.map (·.seq)) }, "ok")
 
 /-- run a history, collecting the states after every step -/
